@@ -117,6 +117,7 @@ type Profile struct {
 	PZeroCreation float64 // node objects with a zero creationTimestamp
 	PAsgEdit    float64 // operator edits of the ASG min/max/desired
 	PForeignTaint float64 // foreign taints added/removed by other controllers
+	PNodeLoss   float64 // spot loss / node object deletion by others
 	PStray      float64 // default-group pods bound to other groups' nodes
 	PBigGroup   float64 // a group of 22-45 nodes (reap batches above 20)
 	PResize     float64 // allocatable of all nodes of a group changes (kubelet reservation rollout)
@@ -129,7 +130,7 @@ func baseProfile() Profile {
 		PDry: 0.08, PGlobalDry: 0.03, PFleet: 0.2, PStarve: 0.2, PMaxAge: 0.15, PAuto: 0.15, PMaxBelow: 0.3,
 		PCalm: 0.5, PCrash: 0.3, POdd: 0.1, PNegRates: 0.04, PInvalid: 0.03, PDefault: 0.25,
 		OperatorP: 0.08, Interleave: 0.05, HorizonLo: 20, HorizonHi: 60, PReconfigure: 0.3, EdgeBias: 0.3,
-		ShortCool: 0.6, ShortGrace: 0.7, POverMax: 0.08, PForceTaint: 0.25, PAnnotate: 0.25, PCordon: 0.3, PExtTaint: 0.25, PZeroCreation: 0.03, PAsgEdit: 0.08, PResize: 0.03, PForeignTaint: 0.15, PStray: 0.15,
+		ShortCool: 0.6, ShortGrace: 0.7, POverMax: 0.08, PForceTaint: 0.25, PAnnotate: 0.25, PCordon: 0.3, PExtTaint: 0.25, PZeroCreation: 0.03, PAsgEdit: 0.08, PResize: 0.03, PForeignTaint: 0.15, PStray: 0.15, PNodeLoss: 0.08,
 	}
 }
 
@@ -148,7 +149,7 @@ func profileFor(prop string) Profile {
 	case "C04":
 		p.PMaxBelow, p.PAuto, p.PAsgEdit = 0.6, 0.15, 0.3
 	case "C05", "C06":
-		p.EdgeBias, p.PDry, p.PGlobalDry, p.POdd, p.PResize = 0.5, 0.02, 0, 0.02, 0.2
+		p.EdgeBias, p.PDry, p.PGlobalDry, p.POdd, p.PResize, p.PNodeLoss, p.ShortCool = 0.5, 0.02, 0, 0.02, 0.2, 0.35, 0.8
 	case "C07":
 		p.PForceTaint, p.PExtTaint, p.PDry, p.PZeroCreation = 0.6, 0.4, 0.02, 0.1
 		p.FaultBias = map[string]float64{OpTerminateASG: 6, OpPut: 2}
